@@ -510,6 +510,7 @@ func (r *collection) addService(service any, lifetime Lifetime, opts ...AddOptio
 		}
 
 		// Register each field as a separate service that points to the same constructor
+		family := make([]*Descriptor, 0, len(descriptor.resultFields))
 		for _, field := range descriptor.resultFields {
 			// Create a descriptor for each field type
 			fieldDescriptor := &Descriptor{
@@ -527,6 +528,7 @@ func (r *collection) addService(service any, lifetime Lifetime, opts ...AddOptio
 				resultFields:    descriptor.resultFields,
 				isParamObject:   descriptor.isParamObject,
 				paramFields:     descriptor.paramFields,
+				resultFieldName: field.Name,
 			}
 
 			// Register the field descriptor
@@ -536,6 +538,11 @@ func (r *collection) addService(service any, lifetime Lifetime, opts ...AddOptio
 					Operation:   "register result object field",
 					Cause:       err,
 				}
+			}
+
+			family = append(family, fieldDescriptor)
+			for _, member := range family {
+				member.family = family
 			}
 		}
 
@@ -555,6 +562,7 @@ func (r *collection) addService(service any, lifetime Lifetime, opts ...AddOptio
 
 		// If we have multiple non-error returns, register each as a separate service
 		if len(nonErrorReturns) > 1 {
+			family := make([]*Descriptor, 0, len(nonErrorReturns))
 			for i, ret := range nonErrorReturns {
 				// Create a descriptor for each return type
 				typeDescriptor := &Descriptor{
@@ -587,6 +595,11 @@ func (r *collection) addService(service any, lifetime Lifetime, opts ...AddOptio
 						Operation:   "register multi-return type",
 						Cause:       err,
 					}
+				}
+
+				family = append(family, typeDescriptor)
+				for _, member := range family {
+					member.family = family
 				}
 			}
 			return nil
